@@ -32,7 +32,8 @@ Steps == {st \in Gated \cup RegCmds(A) \cup {St(B, "NICK", <<<<"ann">>>>), St(B,
 Init == InitWith(Cfg, Pre)
 Next == NextWith(Steps)
 Spec == Init /\ [][Next]_vars
-Depth == 5
+Depth == 6
+DepthT == 7
 Constraint == Len(hist) <= Len(Pre) + Depth
 ASSUME PrintT(<<"CFG", ToJson(CfgJson(Cfg))>>)
 =============================================================================
